@@ -90,3 +90,57 @@ Proof.
   specialize (H _ Hin). cbv zeta in H. rewrite Hrd in H. cbn [negb orb] in H.
   rewrite forallb_forall in H. apply N.leb_le. apply H. exact Hb.
 Qed.
+
+Definition on_hub_at (h : hub) (merged : list block) : bool :=
+  if h_ready h then
+    match last_sent (h_f h) with
+    | Some hd =>
+        match complete_segment (db (h_f h)) (bref hd) with
+        | Some (s0 :: sg, true) =>
+            forallb (fun b => negb ((snum s0 <=? bnum b) && (bnum b <=? bnum hd)) ||
+                              existsb (fun x => block_eqb (seg_blk x) b) (s0 :: sg)) merged
+        | _ => true
+        end
+    | None => true
+    end
+  else true.
+
+Definition files_on_hub_b (c : jcfg) (w : world) (merged : list block) : bool :=
+  forallb (fun k => on_hub_at (w_hub (world_after c k w)) merged) (seq 0 (S (length (w_rest w)))).
+
+Lemma files_on_hub_b_sound c w merged : files_on_hub_b c w merged = true -> files_on_hub c w merged.
+Proof.
+  unfold files_on_hub_b. intros H k hd s0 sg b Hrd Hls Eseg Hb H1 H2.
+  rewrite forallb_forall in H. rewrite (world_after_min c k w) in Hrd, Hls, Eseg.
+  assert (Hin : In (Nat.min k (length (w_rest w))) (seq 0 (S (length (w_rest w))))) by (apply in_seq; lia).
+  specialize (H _ Hin). unfold on_hub_at in H. rewrite Hrd, Hls, Eseg in H.
+  rewrite forallb_forall in H. specialize (H b Hb).
+  replace (snum s0 <=? bnum b) with true in H by (symmetry; apply N.leb_le; exact H1).
+  replace (bnum b <=? bnum hd) with true in H by (symmetry; apply N.leb_le; exact H2).
+  cbn [andb negb orb] in H. apply existsb_exists in H as (x & Hx & E). exists x. split; [exact Hx | apply block_eqb_eq; exact E].
+Qed.
+
+Definition target_at (h : hub) (cu : cursor) : bool :=
+  if h_ready h then
+    match last_sent (h_f h) with
+    | Some hd =>
+        match complete_segment (db (h_f h)) (bref hd) with
+        | Some (sg, true) =>
+            match find (ri (cu_blk cu)) (store (db (h_f h))) with Some _ => block_in (ri (cu_blk cu)) sg | None => true end
+        | _ => true
+        end
+    | None => true
+    end
+  else true.
+
+Definition target_on_chain_b (c : jcfg) (w : world) (cu : cursor) : bool :=
+  forallb (fun k => target_at (w_hub (world_after c k w)) cu) (seq 0 (S (length (w_rest w)))).
+
+Lemma target_on_chain_b_sound c w cu : target_on_chain_b c w cu = true -> target_on_chain c w cu.
+Proof.
+  unfold target_on_chain_b. intros H k hd sg Hrd Hls Eseg Hf.
+  rewrite forallb_forall in H. rewrite (world_after_min c k w) in Hrd, Hls, Eseg, Hf.
+  assert (Hin : In (Nat.min k (length (w_rest w))) (seq 0 (S (length (w_rest w))))) by (apply in_seq; lia).
+  specialize (H _ Hin). unfold target_at in H. rewrite Hrd, Hls, Eseg in H.
+  destruct (find (ri (cu_blk cu)) (store (db (h_f (w_hub (world_after c (Nat.min k (length (w_rest w))) w)))))); [exact H | contradiction].
+Qed.
